@@ -74,6 +74,12 @@ fn worker(
 ) -> impl FnOnce() {
     move || {
         counter.fetch_add(1, Ordering::AcqRel);
+        #[cfg(compio_verif)]
+        crate::verif::emit(
+            crate::verif::WORKER_START,
+            counter.load(Ordering::Acquire) as u64,
+            0,
+        );
         let _guard = CounterGuard(counter);
         while let Ok(f) = receiver.recv_timeout(timeout) {
             f.run()
@@ -122,6 +128,8 @@ impl AsyncifyPool {
                             Box::from_raw(Box::into_raw(f).cast())
                         }))
                     } else {
+                        #[cfg(compio_verif)]
+                        crate::verif::sched_point(10);
                         std::thread::spawn(worker(
                             self.receiver.clone(),
                             self.counter.clone(),
